@@ -144,6 +144,14 @@ def check_run(filt, sources, exp, x, key, nontriv, zero=None):
     return bad(key + ":exception:" + type(exc).__name__,
                "running the time-varying filter raised", {"outputs": len(exp)},
                {"exc": type(exc).__name__, "msg": str(exc)[:200]}, nontriv)
+  if len(got) == len(exp) == len(x):
+    # the output ended because the INPUT ended: no coefficient may have been read for a
+    # sample that was never produced (it would be lost for a later block of the same signal)
+    for s in sources:
+      if s.pulls != len(got) and not (s.ended and s.pulls < len(got)):
+        return bad(key + ":pulls-at-end", "when the input ends, every coefficient stream must have been "
+                   "read exactly once per output sample (no read ahead)",
+                   {"outputs": len(got), "pulls": len(got)}, {"source": s.name, "pulls": s.pulls}, nontriv)
   if len(got) != len(exp):
     return bad(key + ":length", "output must end when the input or any coefficient stream ends",
                len(exp), len(got), nontriv)
